@@ -261,7 +261,7 @@ RULES = [
 ]
 
 MANIFEST = {
-    "text": "Model-level static decision: the formatter model (write sites, templates, argument origins, guards) extracted from the MIR of Display::fmt equals the documented shape, and each compile-time evaluated escape set equals the documented set bit for bit in both directions; accessor summaries are Some(field).filter(!is_empty). Holds for every PURL value because the emitter is straight-line code over five fields; value-level facts of percent-encoding/core::fmt are assumed, not analysed.",
+    "text": "Model-level static decision: the formatter model (write sites, templates, argument origins, guards) extracted from the MIR of Display::fmt equals the documented shape, and each compile-time evaluated escape set equals the documented set bit for bit in both directions; accessor summaries are Some(field).filter(!is_empty). Holds for every PURL value because the emitter is straight-line code over five fields; value-level facts of percent-encoding/core::fmt are assumed, not analysed. The type is written raw, so the type predicate must admit nothing that needs escaping and no separator (computed alphabet disjoint from the name escape set).",
     "note": "Trusted: rustc front end and const evaluator, the extractor/analyses, the callee semantics of utf8_percent_encode (bytes >= 0x80 and set members become %XX upper-case) and of core::fmt templates. Not decided: behaviour inside dependencies.",
     "technique": "MIR-derived formatter model vs. reference shape table; evaluated AsciiSet constants vs. documented escape sets (bitwise); boolean summaries of accessors",
     "design_ref": "DESIGN.md 5.3",
